@@ -267,6 +267,21 @@ CHECKS['C05'] = dict(
               'by vm_compute) + translator (Jinja lexer, live jinja_env) + differential correspondence + lxml / rule-set oracle',
     design='C05')
 
+CHECKS['C17'] = dict(
+    text='Theorems (over EVERY finite history of management operations, by induction): C17_invariant_step / C17_invariant (foreign keys '
+         'resolve - media file -> stream and blob, blob owned by exactly one file, key link -> file and key, period -> multi-period '
+         'stream and stream, adaptation set -> period - and primary keys stay unique, after every operation), C17_delete_stream_exact '
+         '(deleting a stream removes exactly its files, their blobs and links, the periods that play it and their adaptation sets, and '
+         'nothing else), C17_refuted_pinned (the pinned upstream deletion leaves dangling periods: witness). Tied to /repo by random '
+         'management histories through the real endpoints as an authorised user with the rows read through SQLAlchemy after EVERY '
+         'request and compared with the model state; an independent oracle checks the consistency rules on the rows, that every listed '
+         'stream / multi-period manifest answers 200 or a clean 4xx, and that uploaded + indexed files are served back byte-exactly.',
+    note=TB + 'PARTIAL: the model is a reading of the ORM cascade declarations (SQLAlchemy / SQLite are not verified); blob files on disk '
+         'and the contents of rows (titles, timing references, options) are outside the model.',
+    technique='Coq proof (invariant preserved by each operation of a relational store model; induction over histories) + HTTP history '
+              'correspondence (state compared after every step) + independent consistency oracle',
+    design='C17')
+
 NOT_YET = {
 }
 
